@@ -358,3 +358,30 @@ PROPS["C13"] = {
                   "cancellation (conn.rs submit_request; exercised by the lat and limits suites).",
     "assumptions": ["each DashMap operation is atomic and short; the worker runs one task at a time"],
 }
+
+
+PROPS["C17"] = {
+    "theorems": ["Narwhal.Theorems.C17"],
+    "audit_files": ["Narwhal/Model/Direct.lean"],
+    "expect_theorems": ["Narwhal.Direct.C17_exactly_once", "Narwhal.Direct.C17_faithful", "Narwhal.Direct.C17_m2s_ack", "Narwhal.Direct.C17_c2s"],
+    "suites": {"direct": {"kind": "lines", "nvh_suite": "direct", "driver_suite": "direct", "op_prefixes": ["m2s ", "c2s "],
+                          "cases": {"quick": 250, "thorough": 6000}, "oracle_tags": ["C17"]},
+               "srv": {"kind": "srv", "projection": {"ops": ["moddirect"]}, "oracle_tags": ["C17"]}},
+    "rule": "per case: the real C2S server (modulator with/without auth and send-private-payload, or none), a real M2S link (M2sConnManager + "
+            "M2sDispatcher) publishing into the real routing task over a broadcast channel of capacity 1/2/16; users with 1-3 connections each "
+            "(modulator auth), connections opened and closed in between; M2S_MOD_DIRECT with 1-5 targets drawn with repetition from present and "
+            "absent users, payloads 1..64 bytes incl. LF/NUL; client MOD_DIRECT with every modulator outcome, with and without id; "
+            "distinct = distinct observations",
+    "trusted_base": ["modelled, not verified: server/src/c2s/mod.rs route_m2s_private_payload, modulator/src/conn.rs M2sDispatcher::dispatch_mod_direct_message, "
+                     "server/src/c2s/conn.rs dispatch_mod_direct_message", "tokio broadcast channel; the router state is an oracle input taken from the handshake acknowledgements"],
+    "level_text": "Proved in Lean for every router state in which a connection is registered once under one user, every target list and payload: each live "
+                  "connection of each listed user receives exactly one MOD_DIRECT and every other connection none, wherever and however often a user is "
+                  "repeated; every delivered frame carries the modulator's bytes and the server's domain; the modulator's request is acknowledged with "
+                  "its id; a client's MOD_DIRECT reaches the modulator exactly when a modulator with the capability exists and the request is well-formed, "
+                  "with the sender's own username and the exact payload, is acknowledged iff the modulator accepted it, and is refused with "
+                  "UNEXPECTED_MESSAGE otherwise. Tied by the direct suite (real M2S link, routing task and C2S server) and per-connection copy-count oracles.",
+    "level_note": "Interleaving with connects / disconnects is exercised by the suite (connections opened and closed between direct messages); delivery to a "
+                  "connection that closes while the payload is being routed is not modelled. Lagged broadcast receivers (repair 17b3b88) are reached with the "
+                  "capacity-1 channel.",
+    "assumptions": ["a connection is registered once, under one username (Router invariant, C05/C07)"],
+}
